@@ -20,6 +20,22 @@ def attr_writers(repo, attr):
     """(FuncInfo, node, kind) for every store / mutation of `<anything>.<attr>` in the repo"""
     out = []
     for f in repo.all_functions():
+        # local aliases of the protected object:  users = self._users ; users.append(x)
+        aliases = set()
+        for n in walk_local(f.node):
+            if isinstance(n, ast.Assign) and len(n.targets) == 1 and isinstance(n.targets[0], ast.Name) \
+                    and isinstance(n.value, ast.Attribute) and n.value.attr == attr:
+                aliases.add(n.targets[0].id)
+        if aliases:
+            for n in walk_local(f.node):
+                if isinstance(n, ast.Call) and isinstance(n.func, ast.Attribute) and n.func.attr in MUTATORS \
+                        and isinstance(n.func.value, ast.Name) and n.func.value.id in aliases:
+                    out.append((f, n, 'call %s (through alias %s)' % (n.func.attr, n.func.value.id)))
+                if isinstance(n, (ast.Assign, ast.AugAssign, ast.Delete)):
+                    ts = n.targets if isinstance(n, (ast.Assign, ast.Delete)) else [n.target]
+                    for t in ts:
+                        if isinstance(t, ast.Subscript) and isinstance(t.value, ast.Name) and t.value.id in aliases:
+                            out.append((f, n, 'element store (through alias %s)' % t.value.id))
         for n in walk_local(f.node):
             tgts = []
             if isinstance(n, ast.Assign):
